@@ -289,6 +289,15 @@ X15_Records(s, e, t) ==
   /\ (e.name = "TransferDenom" /\ e.ok /\ HasDenom(t, e.cls)) => t.cls[e.cls].owner = e.to
   /\ t.seqD >= s.seqD /\ t.seqM >= s.seqM
 
+(* read-back fidelity (C15 does not state it): class name / data / owner and
+   token metadata are stored as submitted; the sentinel keeps the metadata *)
+X15_Fidelity(s, e, t) ==
+  /\ (IsIssue(e) /\ HasDenom(t, e.gen)) =>
+       t.cls[e.gen] = [owner |-> e.who, name |-> e.cname, data |-> e.data]
+  /\ (IsMintNew(e) /\ HasMT(t, e.cls, e.gen)) => t.mts[e.cls][e.gen].data = e.data
+  /\ (e.name = "EditMT" /\ e.ok /\ HasMT(s, e.cls, e.id) /\ HasMT(t, e.cls, e.id)) =>
+       t.mts[e.cls][e.id].data = (IF e.data = KEEP THEN s.mts[e.cls][e.id].data ELSE e.data)
+
 -----------------------------------------------------------------------------
 (* Model-checking universe *)
 Init0 ==
@@ -359,6 +368,7 @@ Act_C15_Authority == [][C15_Authority(st, ev', st')]_vars
 Act_C15_FreshIds == [][C15_FreshIds(st, ev', st', gh')]_vars
 Act_Rejected_NoEffect == [][Rejected_NoEffect(st, ev', st')]_vars
 Act_X15_Records == [][X15_Records(st, ev', st')]_vars
+Act_X15_Fidelity == [][X15_Fidelity(st, ev', st')]_vars
 
 View == st
 =============================================================================
